@@ -1,44 +1,700 @@
 package main
 
-// Counterexample pipeline: model extraction, concretisation, replay on the real code.
+// Counterexample pipeline: model extraction (interactive z3 session), concretisation of the function's
+// entry state as Go values, replay on the real code through `go test -overlay`.
 
 import (
-	"context"
+	"bufio"
+	"encoding/json"
+	"fmt"
+	"go/ast"
+	"go/types"
+	"io"
 	"os"
+	"os/exec"
 	"path/filepath"
+	"regexp"
+	"sort"
+	"strconv"
 	"strings"
 	"time"
 )
 
-// getModel re-runs the (region-restricted) query with get-model on z3-new, then z3.
-func getModel(scratch string, o *Obligation, extra string) (string, string) {
+// concreteQuery rewrites a query for counterexample extraction: type parameters become Int and
+// comparison callbacks the natural order on Int (DESIGN.md Appendix E, "concrete" mode).
+func concreteQuery(q string) string {
+	var out []string
+	reSort := regexp.MustCompile(`^\(declare-sort (T_[A-Za-z0-9_]+) 0\)$`)
+	reOrd := regexp.MustCompile(`^\(declare-fun (ord\$T_[A-Za-z0-9_]+) \(Int (T_[A-Za-z0-9_]+) `)
+	reZero := regexp.MustCompile(`^\(declare-const (zero\$T_[A-Za-z0-9_]+) `)
+	skipOrd := map[string]bool{}
+	for _, ln := range strings.Split(q, "\n") {
+		if m := reSort.FindStringSubmatch(ln); m != nil {
+			out = append(out, fmt.Sprintf("(define-sort %s () Int)", m[1]))
+			continue
+		}
+		if m := reOrd.FindStringSubmatch(ln); m != nil {
+			out = append(out, fmt.Sprintf("(define-fun %s ((f Int) (a Int) (b Int)) Int (ite (< a b) (- 1) (ite (> a b) 1 0)))", m[1]))
+			skipOrd[m[1]] = true
+			continue
+		}
+		if m := reZero.FindStringSubmatch(ln); m != nil {
+			out = append(out, ln, fmt.Sprintf("(assert (= %s 0))", m[1]))
+			continue
+		}
+		drop := false
+		for o := range skipOrd {
+			if strings.HasPrefix(ln, "(assert (forall ((f Int)") && strings.Contains(ln, "("+o+" f ") {
+				drop = true
+			}
+		}
+		if !drop {
+			out = append(out, ln)
+		}
+	}
+	return strings.Join(out, "\n")
+}
+
+// z3 session
+
+type z3session struct {
+	cmd *exec.Cmd
+	in  io.WriteCloser
+	out *bufio.Reader
+}
+
+func startZ3(bin string) (*z3session, error) {
+	cmd := exec.Command(bin, "-in", "-t:15000")
+	in, _ := cmd.StdinPipe()
+	outp, _ := cmd.StdoutPipe()
+	cmd.Stderr = cmd.Stdout
+	if err := cmd.Start(); err != nil {
+		return nil, err
+	}
+	return &z3session{cmd: cmd, in: in, out: bufio.NewReader(outp)}, nil
+}
+
+func (z *z3session) close() {
+	z.in.Close()
+	done := make(chan struct{})
+	go func() { z.cmd.Wait(); close(done) }()
+	select {
+	case <-done:
+	case <-time.After(2 * time.Second):
+		z.cmd.Process.Kill()
+	}
+}
+
+// send writes commands followed by an echo marker and reads until the marker.
+func (z *z3session) send(cmds string) (string, error) {
+	fmt.Fprintf(z.in, "%s\n(echo \"<<done>>\")\n", cmds)
+	var b strings.Builder
+	deadline := time.After(40 * time.Second)
+	type line struct {
+		s   string
+		err error
+	}
+	ch := make(chan line, 1)
+	for {
+		go func() {
+			s, err := z.out.ReadString('\n')
+			ch <- line{s, err}
+		}()
+		select {
+		case l := <-ch:
+			if l.err != nil {
+				return b.String(), l.err
+			}
+			if strings.Contains(l.s, "<<done>>") {
+				return b.String(), nil
+			}
+			b.WriteString(l.s)
+		case <-deadline:
+			z.cmd.Process.Kill()
+			return b.String(), fmt.Errorf("solver session timed out")
+		}
+	}
+}
+
+// getValues asks for the values of terms; returns parsed ints (or raw strings).
+func (z *z3session) getValues(terms []string) ([]string, error) {
+	if len(terms) == 0 {
+		return nil, nil
+	}
+	out, err := z.send("(get-value (" + strings.Join(terms, " ") + "))")
+	if err != nil {
+		return nil, err
+	}
+	if strings.Contains(out, "(error") {
+		return nil, fmt.Errorf("get-value: %s", firstLines(out, 3))
+	}
+	// parse "((t v) (t v) ...)" by walking balanced parentheses
+	vals := parsePairs(out)
+	if len(vals) != len(terms) {
+		return nil, fmt.Errorf("get-value: %d values for %d terms: %s", len(vals), len(terms), firstLines(out, 5))
+	}
+	return vals, nil
+}
+
+func parsePairs(s string) []string {
+	s = strings.TrimSpace(s)
+	if len(s) < 2 {
+		return nil
+	}
+	s = s[1 : len(s)-1] // outer parens
+	var vals []string
+	i := 0
+	for i < len(s) {
+		if s[i] != '(' {
+			i++
+			continue
+		}
+		// one pair: (term value)
+		j, d := i, 0
+		for ; j < len(s); j++ {
+			if s[j] == '(' {
+				d++
+			}
+			if s[j] == ')' {
+				d--
+				if d == 0 {
+					break
+				}
+			}
+			if s[j] == '|' {
+				j++
+				for j < len(s) && s[j] != '|' {
+					j++
+				}
+			}
+		}
+		pair := s[i+1 : j]
+		// split term / value: the term is one s-expression
+		k, d2 := 0, 0
+		for ; k < len(pair); k++ {
+			c := pair[k]
+			if c == '|' {
+				k++
+				for k < len(pair) && pair[k] != '|' {
+					k++
+				}
+				continue
+			}
+			if c == '(' {
+				d2++
+			}
+			if c == ')' {
+				d2--
+			}
+			if d2 == 0 && (c == ' ' || c == '\n') && k > 0 {
+				break
+			}
+		}
+		vals = append(vals, strings.TrimSpace(pair[k:]))
+		i = j + 1
+	}
+	return vals
+}
+
+func smtInt(v string) (int64, bool) {
+	v = strings.TrimSpace(v)
+	if strings.HasPrefix(v, "(- ") {
+		n, err := strconv.ParseInt(strings.TrimSuffix(v[3:], ")"), 10, 64)
+		return -n, err == nil
+	}
+	if strings.HasPrefix(v, "#x") {
+		n, err := strconv.ParseUint(v[2:], 16, 64)
+		return int64(n), err == nil
+	}
+	if strings.HasPrefix(v, "#b") {
+		n, err := strconv.ParseUint(v[2:], 2, 64)
+		return int64(n), err == nil
+	}
+	n, err := strconv.ParseInt(v, 10, 64)
+	return n, err == nil
+}
+
+// ---------------------------------------------------------------------------
+
+type goBuilder struct {
+	fv     *FV
+	z      *z3session
+	decls  []string            // Go statements building the inputs
+	arrays map[string]string   // element store key + base value → Go variable of the backing array
+	objs   map[string]string   // struct ref value → Go variable
+	n      int
+	abst   map[string]int64 // abstract values of uninterpreted sorts → ints
+	fail   string
+	tparam map[string]string // type parameter name → Go type used
+	sent   map[string]bool
+}
+
+func (g *goBuilder) name(prefix string) string {
+	g.n++
+	return fmt.Sprintf("%s%d", prefix, g.n)
+}
+
+// syncDecls sends declarations created after the query was generated (heap components touched only now).
+func (g *goBuilder) syncDecls() {
+	for _, d := range g.fv.decls {
+		if !g.sent[d] {
+			g.sent[d] = true
+			g.z.send(concreteQuery(d))
+		}
+	}
+}
+
+func (g *goBuilder) val1(term string) (string, bool) {
+	g.syncDecls()
+	vs, err := g.z.getValues([]string{term})
+	if err != nil {
+		g.fail = err.Error()
+		return "", false
+	}
+	return vs[0], true
+}
+
+func (g *goBuilder) intOf(term string) (int64, bool) {
+	v, ok := g.val1(term)
+	if !ok {
+		return 0, false
+	}
+	n, ok := smtInt(v)
+	if !ok {
+		// abstract value of an uninterpreted sort
+		if id, has := g.abst[v]; has {
+			return id, true
+		}
+		id := int64(len(g.abst) + 1000)
+		g.abst[v] = id
+		return id, true
+	}
+	return n, true
+}
+
+// goType renders a type for the test with type parameters instantiated to int.
+func (g *goBuilder) goType(t types.Type) string {
+	switch x := t.(type) {
+	case *types.TypeParam:
+		if ct := coreType(x); ct != nil {
+			return g.goType(ct)
+		}
+		return "int"
+	case *types.Slice:
+		return "[]" + g.goType(x.Elem())
+	case *types.Pointer:
+		return "*" + g.goType(x.Elem())
+	case *types.Named:
+		s := x.Obj().Name()
+		if x.Obj().Pkg() != nil && x.Obj().Pkg() != g.fv.pkg {
+			s = x.Obj().Pkg().Name() + "." + s
+		}
+		if ta := x.TypeArgs(); ta != nil && ta.Len() > 0 {
+			var as []string
+			for i := 0; i < ta.Len(); i++ {
+				as = append(as, g.goType(ta.At(i)))
+			}
+			s += "[" + strings.Join(as, ", ") + "]"
+		}
+		return s
+	case *types.Basic:
+		return x.Name()
+	case *types.Signature:
+		var ps, rs []string
+		for i := 0; i < x.Params().Len(); i++ {
+			ps = append(ps, g.goType(x.Params().At(i).Type()))
+		}
+		for i := 0; i < x.Results().Len(); i++ {
+			rs = append(rs, g.goType(x.Results().At(i).Type()))
+		}
+		r := ""
+		if len(rs) == 1 {
+			r = " " + rs[0]
+		} else if len(rs) > 1 {
+			r = " (" + strings.Join(rs, ", ") + ")"
+		}
+		return "func(" + strings.Join(ps, ", ") + ")" + r
+	case *types.Map:
+		return "map[" + g.goType(x.Key()) + "]" + g.goType(x.Elem())
+	}
+	return types.TypeString(t, func(p *types.Package) string {
+		if p == g.fv.pkg {
+			return ""
+		}
+		return p.Name()
+	})
+}
+
+// value builds a Go expression for the model value of an SMT term of Go type t (entry state).
+func (g *goBuilder) value(term string, t types.Type, role string, depth int) (string, bool) {
+	if depth > 6 {
+		g.fail = "structure too deep"
+		return "", false
+	}
+	sort := g.fv.sortOf(t)
+	switch {
+	case sort == sInt:
+		switch ut := t.Underlying().(type) {
+		case *types.Pointer:
+			return g.object(term, ut, depth)
+		case *types.Signature:
+			return g.callback(term, ut, role)
+		case *types.Map, *types.Interface, *types.Chan:
+			g.fail = "unsupported input type " + t.String()
+			return "", false
+		}
+		n, ok := g.intOf(term)
+		if !ok {
+			return "", false
+		}
+		return fmt.Sprintf("%s(%d)", g.goType(t), n), true
+	case sort == sBool:
+		v, ok := g.val1(term)
+		return v, ok
+	case isBV(sort):
+		n, ok := g.intOf(term)
+		if !ok {
+			return "", false
+		}
+		return fmt.Sprintf("%s(%d)", g.goType(t), uint64(n)), true
+	case sort == sSlice:
+		return g.slice(term, t, depth)
+	case strings.HasPrefix(sort, "T_"):
+		n, ok := g.intOf(term)
+		if !ok {
+			return "", false
+		}
+		return fmt.Sprint(n), true
+	}
+	g.fail = "unsupported input sort " + sort + " (" + t.String() + ")"
+	return "", false
+}
+
+func (g *goBuilder) slice(term string, t types.Type, depth int) (string, bool) {
+	et := elemType(t)
+	base, ok1 := g.intOf("(sbase " + term + ")")
+	off, ok2 := g.intOf("(soff " + term + ")")
+	ln, ok3 := g.intOf("(slen " + term + ")")
+	cp, ok4 := g.intOf("(scap " + term + ")")
+	if !(ok1 && ok2 && ok3 && ok4) {
+		return "", false
+	}
+	if base == 0 {
+		return "nil", true
+	}
+	if off < 0 || ln < 0 || cp < ln || off+cp > 64 {
+		g.fail = fmt.Sprintf("model slice too large or malformed (off %d len %d cap %d)", off, ln, cp)
+		return "", false
+	}
+	key, _ := g.fv.elemComp(et)
+	id := fmt.Sprintf("%s/%d", key, base)
+	arrVar, has := g.arrays[id]
+	if !has {
+		arrVar = g.name("arr")
+		g.arrays[id] = arrVar
+		size := off + cp
+		// other slices on the same base may need more room: allocate generously
+		if size < 16 {
+			size = 16
+		}
+		g.decls = append(g.decls, fmt.Sprintf("%s := make([]%s, %d)", arrVar, g.goType(et), size))
+		E := g.fv.heapGet(g.fv.entry, key)
+		for i := int64(0); i < size && i < off+cp; i++ {
+			ev, ok := g.value(fmt.Sprintf("(select (select %s %d) %d)", E, base, i), et, "", depth+1)
+			if !ok {
+				return "", false
+			}
+			g.decls = append(g.decls, fmt.Sprintf("%s[%d] = %s", arrVar, i, ev))
+		}
+	}
+	return fmt.Sprintf("%s[%d:%d:%d]", arrVar, off, off+ln, off+cp), true
+}
+
+func (g *goBuilder) object(term string, pt *types.Pointer, depth int) (string, bool) {
+	ref, ok := g.intOf(term)
+	if !ok {
+		return "", false
+	}
+	if ref == 0 {
+		return "nil", true
+	}
+	named, sty := structOf(pt.Elem())
+	if sty == nil || named == nil {
+		g.fail = "pointer to non-struct input"
+		return "", false
+	}
+	id := fmt.Sprintf("%s/%d", named.String(), ref)
+	if v, has := g.objs[id]; has {
+		return v, true
+	}
+	v := g.name("obj")
+	g.objs[id] = v
+	g.decls = append(g.decls, fmt.Sprintf("%s := new(%s)", v, g.goType(pt.Elem())))
+	pc := g.fv.w.contracts[pkgPathOf(named.Obj())]
+	for i := 0; i < sty.NumFields(); i++ {
+		f := sty.Field(i)
+		key, _ := g.fv.fieldComp(named, f)
+		role := ""
+		if pc != nil {
+			role = pc.FieldRole[named.Obj().Name()+"."+f.Name()]
+		}
+		fvv, ok := g.value(fmt.Sprintf("(select %s %d)", g.fv.heapGet(g.fv.entry, key), ref), f.Type(), role, depth+1)
+		if !ok {
+			return "", false
+		}
+		if fvv != "nil" || true {
+			g.decls = append(g.decls, fmt.Sprintf("%s.%s = %s", v, f.Name(), fvv))
+		}
+	}
+	return v, true
+}
+
+// callback builds a Go function for a callback parameter according to its role.
+func (g *goBuilder) callback(term string, sig *types.Signature, role string) (string, bool) {
+	rf := strings.Fields(role)
+	kind := ""
+	if len(rf) > 0 {
+		kind = rf[0]
+	}
+	ft := g.goType(sig)
+	switch kind {
+	case "ord":
+		return fmt.Sprintf("%s(func(a, b int) int { if a < b { return -1 }; if a > b { return 1 }; return 0 })", ft), true
+	case "yield":
+		// returns the recorded answers of the model, then true
+		return fmt.Sprintf("%s(func(v int) bool { govcYields = append(govcYields, v); return true })", ft), true
+	case "pred":
+		// table from the model over small values is not extracted yet: keep even values
+		g.fail = "predicate callbacks are not concretised yet"
+		return "", false
+	case "report":
+		return fmt.Sprintf("%s(func(v int, pos int) {})", ft), true
+	}
+	g.fail = "callback without a role"
+	return "", false
+}
+
+// replayModel concretises the entry state of the model and runs the real function on it.
+func replayModel(w *World, fv *FV, o *Obligation, scratch string, info map[string]interface{}) bool {
+	fd := fv.fi.Decl
 	q := o.CexQuery
 	if q == "" {
 		q = o.Query
 	}
-	q = strings.Replace(q, "(check-sat)\n", extra+"(check-sat)\n(get-model)\n", 1)
-	file := filepath.Join(scratch, sanitize(o.Name)+".model.smt2")
-	os.WriteFile(file, []byte(q), 0o644)
-	for _, sd := range solvers[:2] {
-		st, out, _ := runOne(context.Background(), sd, file, 10*time.Second)
-		if st == "sat" {
-			return out, sd.name
+	q = concreteQuery(q)
+	q = strings.Replace(q, "(check-sat)\n", "", 1)
+	var z *z3session
+	var status string
+	for _, bin := range []string{"z3-new", "z3"} {
+		s, err := startZ3(bin)
+		if err != nil {
+			continue
 		}
+		out, err := s.send(q + "\n(check-sat)")
+		status = strings.TrimSpace(out)
+		if err == nil && strings.HasPrefix(status, "sat") {
+			z = s
+			info["model_solver"] = bin + " (concrete mode: type parameters := Int)"
+			break
+		}
+		s.close()
 	}
-	return "", ""
-}
-
-func counterexample(w *World, fv *FV, o *Obligation, scratch string, info map[string]interface{}) bool {
-	model, solver := getModel(scratch, o, "")
-	if model == "" {
+	if z == nil {
+		info["status"] = "no-model"
+		info["concrete_mode"] = "no model in concrete mode: " + firstLines(status, 2)
 		return false
 	}
-	info["model_solver"] = solver
-	info["status"] = "model-not-replayed"
-	return replayModel(w, fv, o, scratch, model, info)
-}
-
-func replayModel(w *World, fv *FV, o *Obligation, scratch, model string, info map[string]interface{}) bool {
-	info["model"] = firstLines(model, 400)
+	defer z.close()
+	// prefer small models: each preference is kept only if the query stays satisfiable with it
+	prefer := func(c string) {
+		out, err := z.send("(push)\n(assert " + c + ")\n(check-sat)")
+		if err != nil || !strings.HasPrefix(strings.TrimSpace(out), "sat") {
+			z.send("(pop)")
+			z.send("(check-sat)")
+		}
+	}
+	var entryTerms []Term
+	for _, t := range fv.entry.vars {
+		entryTerms = append(entryTerms, t)
+	}
+	sort.Slice(entryTerms, func(i, j int) bool { return entryTerms[i].S < entryTerms[j].S })
+	for _, t := range entryTerms {
+		switch {
+		case t.Sort == sSlice:
+			prefer("(= (soff " + t.S + ") 0)")
+			prefer("(<= (slen " + t.S + ") 8)")
+			prefer("(<= (scap " + t.S + ") (+ (slen " + t.S + ") 2))")
+			prefer("(<= (sbase " + t.S + ") 100)")
+		case t.Sort == sInt:
+			prefer("(and (<= (- 16) " + t.S + ") (<= " + t.S + " 16))")
+		}
+	}
+	g := &goBuilder{fv: fv, z: z, arrays: map[string]string{}, objs: map[string]string{}, abst: map[string]int64{}, sent: map[string]bool{}}
+	for _, ln := range strings.Split(o.Query, "\n") {
+		g.sent[ln] = true
+	}
+	// inputs: receiver and parameters at entry
+	var args []string
+	recv := ""
+	model := map[string]string{}
+	getEntry := func(id *ast.Ident, role string) (string, bool) {
+		obj := fv.info.Defs[id]
+		t, ok := fv.entry.vars[obj]
+		if !ok {
+			g.fail = "no entry value for " + id.Name
+			return "", false
+		}
+		v, ok := g.value(t.S, obj.Type(), role, 0)
+		if ok {
+			model[id.Name] = v
+		}
+		return v, ok
+	}
+	if fd.Recv != nil && len(fd.Recv.List) > 0 && len(fd.Recv.List[0].Names) > 0 {
+		v, ok := getEntry(fd.Recv.List[0].Names[0], "")
+		if !ok {
+			info["status"] = "model-not-concretised"
+			info["concretise_error"] = g.fail
+			return false
+		}
+		recv = v
+	}
+	for _, f := range fd.Type.Params.List {
+		for _, n := range f.Names {
+			role := ""
+			if fv.fc != nil {
+				role = fv.fc.Roles[n.Name]
+			}
+			v, ok := getEntry(n, role)
+			if !ok {
+				info["status"] = "model-not-concretised"
+				info["concretise_error"] = g.fail
+				return false
+			}
+			args = append(args, v)
+		}
+	}
+	// panics-when condition in the model
+	allowed := "false"
+	if fv.fc != nil && fv.fc.PanicsWhen != nil {
+		if v, ok := g.val1(fv.panicsEntry()); ok {
+			allowed = v
+		}
+	}
+	info["model"] = model
+	// the call
+	call := fd.Name.Name
+	if recv != "" {
+		call = recv + "." + call
+	} else if fd.Type.TypeParams != nil {
+		// explicit instantiation keeps inference out of the picture
+	}
+	if fd.Type.Params != nil && len(fd.Type.Params.List) > 0 {
+		last := fd.Type.Params.List[len(fd.Type.Params.List)-1]
+		if _, isVar := last.Type.(*ast.Ellipsis); isVar && len(args) > 0 {
+			args[len(args)-1] += "..."
+		}
+	}
+	callExpr := fmt.Sprintf("%s(%s)", call, strings.Join(args, ", "))
+	var b strings.Builder
+	fmt.Fprintf(&b, "package %s\n\nimport (\n\t\"fmt\"\n\t\"testing\"\n\t\"time\"\n)\n\nvar govcYields []int\n\n", fv.fi.Pkg.Name)
+	fmt.Fprintf(&b, "// Replay of obligation %s\n// %s\nfunc TestGovcReplay(t *testing.T) {\n", o.Name, o.Desc)
+	for _, d := range g.decls {
+		fmt.Fprintf(&b, "\t%s\n", d)
+	}
+	fmt.Fprintf(&b, "\tallowedToPanic := %s\n", allowed)
+	fmt.Fprintf(&b, "\tdone := make(chan string, 1)\n\tgo func() {\n\t\tdefer func() {\n\t\t\tif r := recover(); r != nil {\n\t\t\t\tdone <- fmt.Sprintf(\"panic: %%v\", r)\n\t\t\t}\n\t\t}()\n\t\t%s\n\t\tdone <- \"returned\"\n\t}()\n", callExpr)
+	fmt.Fprintf(&b, "\tselect {\n\tcase r := <-done:\n\t\tfmt.Println(\"GOVC-OUTCOME\", r)\n\t\tif r != \"returned\" && !allowedToPanic {\n\t\t\tt.Fatalf(\"VIOLATION-CONFIRMED unexpected %%s\", r)\n\t\t}\n\t\tif r == \"returned\" && allowedToPanic {\n\t\t\tt.Fatalf(\"VIOLATION-CONFIRMED returned normally where the contract demands a panic\")\n\t\t}\n\tcase <-time.After(10 * time.Second):\n\t\tt.Fatalf(\"VIOLATION-CONFIRMED no termination within 10s\")\n\t}\n}\n")
+	src := b.String()
+	info["go_test"] = src
+	info["go_test_pkg"] = shortPkg(fv.fi.Pkg.PkgPath)
+	ok, out := runReplayTest(shortPkg(fv.fi.Pkg.PkgPath), src)
+	info["run"] = map[string]interface{}{"cmd": "go test -tags verif -overlay <ov.json> -vet=off -count=1 -timeout 60s -run ^TestGovcReplay$ ./" + shortPkg(fv.fi.Pkg.PkgPath), "passed": ok, "output": firstLines(out, 40)}
+	if !ok && strings.Contains(out, "VIOLATION-CONFIRMED") {
+		info["status"] = "confirmed"
+		return true
+	}
+	if !ok {
+		info["status"] = "replay-did-not-build-or-run"
+		return false
+	}
+	info["status"] = "not-reproduced"
 	return false
 }
+
+// runReplayTest injects the test into the package by overlay and runs it.
+func runReplayTest(pkg, src string) (bool, string) {
+	dir, _ := os.MkdirTemp("", "govcr")
+	defer os.RemoveAll(dir)
+	tf := filepath.Join(dir, "zz_govc_replay_test.go")
+	os.WriteFile(tf, []byte(src), 0o644)
+	ov := map[string]map[string]string{"Replace": {filepath.Join(repoDir, pkg, "zz_govc_replay_test.go"): tf}}
+	ob, _ := json.Marshal(ov)
+	ovf := filepath.Join(dir, "ov.json")
+	os.WriteFile(ovf, ob, 0o644)
+	cmd := exec.Command("go", "test", "-tags", "verif", "-overlay", ovf, "-vet=off", "-count=1", "-timeout", "60s", "-run", "^TestGovcReplay$", "./"+pkg)
+	cmd.Dir = repoDir
+	cmd.Env = append(os.Environ(), "GOFLAGS=-mod=mod", "GOPROXY=off", "GOSUMDB=off", "GOTOOLCHAIN=local")
+	out, err := cmd.CombinedOutput()
+	return err == nil, string(out)
+}
+
+func counterexample(w *World, fv *FV, o *Obligation, scratch string, info map[string]interface{}) (confirmed bool) {
+	defer func() {
+		if r := recover(); r != nil {
+			info["status"] = "model-not-concretised"
+			info["concretise_error"] = fmt.Sprint(r)
+			confirmed = false
+		}
+	}()
+	return replayModel(w, fv, o, scratch, info)
+}
+
+// cmdReplay re-runs the Go test stored in a replay file against the current tree.
+func cmdReplay(args []string) int {
+	if len(args) < 1 {
+		fmt.Fprintln(os.Stderr, "replay <file>")
+		return 2
+	}
+	b, err := os.ReadFile(args[0])
+	if err != nil {
+		fmt.Fprintln(os.Stderr, err)
+		return 2
+	}
+	var info map[string]interface{}
+	if err := json.Unmarshal(b, &info); err != nil {
+		fmt.Fprintln(os.Stderr, err)
+		return 2
+	}
+	fmt.Printf("obligation: %v\nclause: %v\nstatus when recorded: %v\n", info["obligation"], info["clause"], info["status"])
+	if f, ok := info["go_test_file"].(string); ok {
+		pkg, _ := info["pkg"].(string)
+		run, _ := info["run"].(string)
+		bound, _ := info["bound"].(string)
+		ok, out, _, _ := runBounded(pkg, filepath.Base(f), run, bound, 0)
+		fmt.Println(firstLines(out, 60))
+		if !ok {
+			fmt.Println("replay: the violation reproduces")
+			return 1
+		}
+		fmt.Println("replay: passes on the current tree")
+		return 0
+	}
+	src, _ := info["go_test"].(string)
+	pkg, _ := info["go_test_pkg"].(string)
+	if src == "" {
+		fmt.Println("no executable replay recorded (no-failing-input-found); solver output:")
+		fmt.Println(info["solvers"], info["solver_output"])
+		return 1
+	}
+	ok, out := runReplayTest(pkg, src)
+	fmt.Println(firstLines(out, 60))
+	if !ok {
+		fmt.Println("replay: the violation reproduces")
+		return 1
+	}
+	fmt.Println("replay: passes on the current tree")
+	return 0
+}
+
+var _ = sort.Strings
